@@ -14,6 +14,7 @@ import sqlalchemy
 from mc import world as W
 from mc.world import enums, CUM, AT
 from mc import sched as S
+from mc import shared
 from mc.report import Reporter, Part
 from mc.par import pmap
 
@@ -140,6 +141,39 @@ def _send(sess, data):
     return conn.sent[-1]
 
 
+_AUDIT = {}
+
+
+def audit(name):
+    """Serial run of the harness under the shared-state watch: (changed roots, files to trace).
+    Nothing changes on the unchanged tree; when something does, the modules owning it become
+    schedule points for this harness (call events), because they touch shared state outside any
+    discipline this explorer knows about."""
+    if name in _AUDIT:
+        return _AUDIT[name]
+    threads = _encode(HARNESSES[name])
+    w = _base().clone()
+    try:
+        W.CLOCK.now = W.T0 + 500
+        W.ENTROPY.constant = True
+        sessions = _sessions(w, name, threads)
+        extra = {'operation_policies': w.policies}
+        if name in SHARED_SLUGS:
+            extra['auth_settings'] = sessions[0]._auth_settings
+        with shared.Watch(extra) as watch:
+            for i, (user, reqs) in enumerate(threads):
+                for data in reqs:
+                    _send(sessions[i], data)
+        changed = sorted(watch.changed)
+        files = shared.files_of(changed)
+        if any(m == '<shared>' for m, _ in changed):
+            files = sorted(set(files) | set(WIDE_TRACE_FILES))
+    finally:
+        w.close()
+    _AUDIT[name] = (changed, tuple(files))
+    return _AUDIT[name]
+
+
 def serial_outcomes(name):
     """All serial orders consistent with each client's order -> outcome."""
     threads = _encode(HARNESSES[name])
@@ -174,8 +208,9 @@ def run_schedule(name, prefix, line_level, wide=False):
     try:
         W.CLOCK.now = W.T0 + 500
         W.ENTROPY.constant = True
-        sch = S.Scheduler(prefix, WIDE_TRACE_FILES if wide else TRACE_FILES, line_level,
-                          skip_codes=_lock_wrapper_codes())
+        flagged = audit(name)[1]
+        sch = S.Scheduler(prefix, tuple(sorted(set(WIDE_TRACE_FILES if wide else TRACE_FILES) | set(flagged))),
+                          line_level, skip_codes=_lock_wrapper_codes())
         eng = w.engine
         eng._lock = S.SchedLock(sch)
         sqlalchemy.event.listen(eng._data_store, 'connect',
@@ -304,6 +339,8 @@ def _worker(task):
     part.sample({'harness': name, 'threads': [(u, len(r)) for u, r in HARNESSES[name]]})
     out = part.as_dict()
     out['h'] = part.counters.pop('_h', [])
+    out['flagged'] = [(name, ['%s:%s' % k for k in _AUDIT.get(name, ((), ()))[0]],
+                       list(_AUDIT.get(name, ((), ()))[1]))] if _AUDIT.get(name, ((), ()))[0] else []
     return out
 
 
@@ -316,8 +353,10 @@ def run(tier, seed):
         tasks += [(n, 3, False, 6000) for n in names if len(HARNESSES[n]) == 2]
         tasks += [(n, 2, False, 6000, True) for n in names]
     hs = []
+    flagged = []
     for part in pmap(_worker, tasks):
         hs += part.pop('h', [])
+        flagged += part.pop('flagged', [])
         rep.merge(part)
     ex = rep.counters.get('executions', 0)
     multi = [h for h in hs if h[5] >= 2]
@@ -332,6 +371,7 @@ def run(tier, seed):
                     'serial_orders_distinct_outcomes': h[4], 'distinct_outcomes_observed': h[5]}
                    for h in hs],
         capped_harnesses=capped, exhaustive=not capped,
+        shared_state_written_during_requests=flagged,
         explanation="states = complete executions (schedules); transitions = scheduling decisions. "
                     "Every schedule with <= 2 preemptions (thorough: also line-level points, "
                     "bound 3 for two-thread harnesses, and a pass in which call events of the session "
@@ -344,6 +384,10 @@ def run(tier, seed):
         "session code touches the engine only through default_protocol_version, process_request and "
         "build_error_response (any other access from session code is made a schedule point)",
         "os.urandom is a length-determined constant and time is frozen during a harness",
+        "code of the codec / policy / crypto layers is not a schedule point unless the shared-state audit "
+        "(a serial run of each harness that watches every mutable module-level and class-level object of "
+        "the kmip package, the shared policy dict and the shared authentication settings) sees it write "
+        "shared state; then the owning modules' call events become schedule points for that harness",
     ])
 
 
